@@ -34,7 +34,7 @@ class ObjectDomain(EffectDomain):
     enter_returns_self = True
     closure_cells = True   # closures share their free variables with the defining frame through cells that outlive it
     heap = True            # a list / dict that gets a second owner becomes a heap object: both owners see every change
-    IDENTITY_TAGS = EffectDomain.IDENTITY_TAGS + ("inst", "classref", "ctorref", "excclass", "func", "method", "boundmethod", "userfn")
+    IDENTITY_TAGS = EffectDomain.IDENTITY_TAGS + ("inst", "classref", "ctorref", "excclass", "func", "method", "boundmethod", "userfn", "pytype")
 
     # -- values ---------------------------------------------------------------------------------
     def truth(self, value):
@@ -184,6 +184,12 @@ class ObjectDomain(EffectDomain):
 
     def attr_of_value(self, interp, value, attr, st, fr):
         """``<value>.attr`` for the objects of this model (None: not one of them)."""
+        if attr == "__dict__" and (is_inst(value) or value == ("self",)):
+            prefix = f"inst.{value[1]}." if is_inst(value) else "self."
+            items = sorted((k[len(prefix):], v) for k, v in st.items if k.startswith(prefix) and "." not in k[len(prefix):] and not k[len(prefix):].startswith("__"))
+            return [val(("kwdict", tuple((k, unbox_deep(v, st)) for k, v in items)), st)]
+        if attr == "__class__" and is_inst(value):
+            return [val(("classref", value[2]), st)]
         if is_inst(value):
             got = self._inst_attr(interp, value, attr, st, fr)
             return got if got is not None else [val(TOP, st)]
@@ -516,6 +522,15 @@ class ObjectDomain(EffectDomain):
             argvals = self._bind(node, pos, kw, False) if not isinstance(node, ast.Lambda) or True else None
             if argvals is None:
                 return [exc(("exc", "TypeError"), st)]
+            if is_generator(node) and getattr(self, "collect_yields", True) and not self._decorators(node) & {"inlineCallbacks", "contextmanager"}:
+                # calling a generator function through a value: as for a call by name, its body runs now and the call evaluates to the sequence of its yields
+                key = f"gen.{fr.depth + 1}"
+                out = []
+                for r in interp.inline(node, argvals, st.set(key, ()), fr, receiver=fr.receiver, is_method=False, closure_env=fn[2] if len(fn) == 3 else ()):
+                    ys = r.state.get(key, ())
+                    s2 = r.state.set(key, st.get(key, ())) if st.has(key) else type(st)(frozenset((k, v) for k, v in r.state.items if k != key), r.state.log)
+                    out.append(exc(r.value, s2) if r.kind == "exc" else val(("tuple",) + tuple(ys), s2))
+                return out
             res = interp.inline(node, argvals, st, fr, receiver=fr.receiver, is_method=False, closure_env=fn[2] if len(fn) == 3 else ())
             return self._wrap_generator(node, res, fr)
         if tag == "bound":
@@ -752,10 +767,21 @@ class ObjectDomain(EffectDomain):
                     out.extend(interp.eval(node, r.state, fr))
             if decided:
                 return out
+        if d == "vars" and len(call.args) == 1 and not call.keywords and isinstance(call.args[0], (ast.Name, ast.Attribute)):
+            return interp.eval(ast.copy_location(ast.Attribute(value=call.args[0], attr="__dict__", ctx=ast.Load()), call), st, fr)   # vars(x) is x.__dict__
+        if d == "type" and len(call.args) == 1 and not call.keywords:
+            got = interp.eval(call.args[0], st, fr)
+            if got and all(r.kind == "exc" or is_inst(r.value) for r in got):
+                return [r if r.kind == "exc" else val(("classref", r.value[2]), r.state) for r in got]
+            if got and all(r.kind == "exc" or self._py(r.value)[0] for r in got):
+                return [r if r.kind == "exc" else val(("pytype", type(self._py(r.value)[1]).__name__), r.state) for r in got]
+        if d in ("nullcontext", "contextlib.nullcontext") and len(call.args) <= 1 and not call.keywords:
+            return [r if r.kind == "exc" else val(("nullcontext", r.value[0] if r.value else NONE), r.state) for r in interp.eval_list(list(call.args), st, fr)]
         # functools.partial / operator helpers as values
         if d in ("partial", "functools.partial") and call.args and not any(isinstance(a, ast.Starred) for a in call.args) and all(k.arg is not None for k in call.keywords):
             out = []
-            for r in interp.eval_list(list(call.args) + [k.value for k in call.keywords], st, fr):
+            # the arguments frozen into the partial are the caller's objects themselves (a list it goes on filling, ...)
+            for r in interp.eval_list(list(call.args) + [k.value for k in call.keywords], st, fr, share=[False] + [True] * (len(call.args) - 1 + len(call.keywords))):
                 if r.kind == "exc":
                     out.append(r)
                     continue
@@ -781,6 +807,8 @@ class ObjectDomain(EffectDomain):
                 else:
                     out.append(val(TOP, r.state))
             return out
+        if d in ("itertools.repeat", "repeat") and len(call.args) == 1 and not call.keywords:
+            return [r if r.kind == "exc" else val(("repeat", r.value), r.state) for r in interp.eval(call.args[0], st, fr)]   # the same object, for ever
         short = d.split(".")[-1]
         if d in ("itertools.compress", "compress", "itertools.chain", "chain", "itertools.chain.from_iterable", "chain.from_iterable", "itertools.filterfalse", "filterfalse", "filter",
                  "itertools.dropwhile", "dropwhile", "itertools.takewhile", "takewhile") and call.args and not call.keywords and not any(isinstance(a, ast.Starred) for a in call.args):
@@ -881,6 +909,12 @@ class ObjectDomain(EffectDomain):
                         elif pos and is_inst(pos[0]):
                             got = self.call_method(interp, pos[0], f_.attr, pos[1:], kw, s2, fr)
                             out.extend(got if got is not None else [val(TOP, s2)])
+                        elif pos and pos[0] == ("self",):
+                            out.extend(self.apply_method(interp, f_.attr, pos[1:], kw, s2, fr))
+                        elif pos and isinstance(pos[0], tuple) and pos[0][:1] in (("wobj",), ("new",)):
+                            # Class.method(something that merely quacks like an instance): the method body runs with that object as self
+                            argvals = self._bind(mf, pos, kw, False)
+                            out.extend([exc(("exc", "TypeError"), s2)] if argvals is None else interp.inline(mf, argvals, s2, fr, receiver=None, is_method=False))
                         else:
                             out.append(val(TOP, s2))
                     return out
@@ -955,8 +989,64 @@ class ObjectDomain(EffectDomain):
             return [(interp._exact_elements(r.value) if r.kind == "val" else None, r.state) for r in got]
         return [(interp._exact_elements(value), st)]
 
+    def _pull(self, interp, seq, st, fr):
+        """One step of iterating ``seq`` (lazily): -> list of ("item", element, rest, state) | ("end", None, None, state) |
+        ("exc", exception, None, state) | ("unknown", None, None, state)."""
+        if isinstance(seq, tuple) and seq[:1] == ("iter",) and len(seq) == 2:
+            seq = seq[1]
+        if isinstance(seq, tuple) and seq[:1] in (("tuple",), ("lazyseq",)):
+            if len(seq) == 1:
+                return [("end", None, None, st)]
+            return [("item", seq[1], ("tuple",) + tuple(seq[2:]), st)]
+        if isinstance(seq, tuple) and seq[:1] == ("repeat",) and len(seq) == 2:
+            return [("item", seq[1], seq, st)]
+        if isinstance(seq, tuple) and seq[:1] == ("lazymap",) and len(seq) == 3:
+            out = []
+            for kind, el, rest, s1 in self._pull(interp, seq[2], st, fr):
+                if kind != "item":
+                    out.append((kind, el, None, s1))
+                    continue
+                for r in self.apply(interp, seq[1], [el], [], s1, fr):
+                    out.append(("exc", r.value, None, r.state) if r.kind == "exc" else ("item", r.value, ("lazymap", seq[1], rest), r.state))
+            return out
+        return [("unknown", None, None, st)]
+
+    def _takewhile_lazily(self, interp, pred, seq, st, fr, limit=64):
+        """takewhile over a sequence that may never end (map over repeat ...): elements are pulled one at a time."""
+        out = []
+        work = [((), seq, st)]
+        for _ in range(limit):
+            nxt = []
+            for acc, cur, s0 in work:
+                for kind, el, rest, s1 in self._pull(interp, cur, s0, fr):
+                    if kind == "end":
+                        out.append(val(("tuple",) + acc, s1))
+                    elif kind == "exc":
+                        out.append(exc(el, s1))
+                    elif kind == "unknown":
+                        out.append(val(TOP, s1))
+                    else:
+                        verdicts = [val({"T": TRUE, "F": FALSE}.get(self.truth(el), ("bool",)), s1)] if pred == NONE else self.apply(interp, pred, [el], [], s1, fr)
+                        for r in verdicts:
+                            if r.kind == "exc":
+                                out.append(r)
+                                continue
+                            t = self.truth(r.value)
+                            if t == "T":
+                                nxt.append((acc + (el,), rest, r.state))
+                            elif t == "F":
+                                out.append(val(("tuple",) + acc, r.state))
+                            else:
+                                out.append(val(TOP, r.state))
+            work = nxt
+            if not work:
+                return out
+        raise Undecided("takewhile over an endless sequence did not stop within the analysis budget")
+
     def _itertool(self, interp, name, args, st, fr):
         out = []
+        if name == "takewhile" and len(args) == 2 and isinstance(args[1], tuple) and args[1][:1] in (("lazymap",), ("repeat",)):
+            return self._takewhile_lazily(interp, args[0], args[1], st, fr)
         if name == "compress" and len(args) == 2:
             for data, s1 in self._elements(interp, args[0], st, fr):
                 for sel, s2 in self._elements(interp, args[1], s1, fr):
@@ -1129,6 +1219,10 @@ class ObjectDomain(EffectDomain):
 
     def with_object(self, interp, stmt, item, value, st, fr):
         """`with <instance or ExitStack> [as x]:` -> outcomes (kind, payload, state), or None when not an object of this model."""
+        if isinstance(value, tuple) and value[:1] == ("nullcontext",):
+            # contextlib.nullcontext(x): entering gives x, leaving does nothing
+            s2 = st if item.optional_vars is None else interp.assign(item.optional_vars, value[1], st, fr)
+            return list(interp.exec_block(stmt.body, [s2], fr))
         if not (is_inst(value) or is_exitstack(value)):
             return None
         out = []
